@@ -945,6 +945,299 @@ theorem retrievable_Enumeration (pr : Profile) (hdev : pr.debugAsserts = true) (
   | err x => rw [hs] at h2; cases h2
   | panic => rw [hs] at h2; cases h2
 
+/-! ## documents with Groups
+
+A `Group` is `Good` when its members are (so Groups — nested ones included — do not block the
+document-level theorems), and a member of a Group is found in the final store like a top-level
+declaration. -/
+
+theorem parseElems_keeps (pr : Profile) (es : List Elem) (hgood : ∀ x ∈ es, Good (F := F) pr x)
+    (st : St F) (ds : List (NodeData F)) (st' : St F) (h : parseElems pr es st = .ok (ds, st')) :
+    Keeps st st' := by
+  induction es generalizing st ds with
+  | nil =>
+    simp only [parseElems, Res.ok.injEq, Prod.mk.injEq] at h
+    obtain ⟨_, rfl⟩ := h
+    exact Keeps.refl _
+  | cons e es ih =>
+    simp only [parseElems] at h
+    cases hp : parseElem pr e st with
+    | ok r =>
+      rw [hp] at h
+      simp only [Res.bind_ok'] at h
+      cases hr : parseElems pr es r.2 with
+      | ok r2 =>
+        rw [hr] at h
+        simp only [Res.bind_ok', Res.ok.injEq, Prod.mk.injEq] at h
+        obtain ⟨_, rfl⟩ := h
+        exact (hgood e (by simp) st r.1 r.2 hp).trans
+          (ih (fun x hx => hgood x (by simp [hx])) r.2 r2.1 (by rw [hr]))
+      | err x => rw [hr] at h; cases h
+      | panic => rw [hr] at h; cases h
+    | err x => rw [hp] at h; cases h
+    | panic => rw [hp] at h; cases h
+
+/-- `good_Group`: a Group whose members keep the store keeps the store (any attributes, any
+nesting: an inner Group is `Good` by this very theorem) -/
+theorem good_Group (pr : Profile) (attrs : List (Str × Str)) (es : List Elem) (hel : AllElems es)
+    (hgood : ∀ x ∈ es, Good (F := F) pr x) : Good (F := F) pr (.node cs!"Group" attrs es) := by
+  intro st ds st' h
+  rw [group_flat_members pr attrs es hel st] at h
+  exact parseElems_keeps pr es hgood st ds st' h
+
+theorem parseElems_split (pr : Profile) (a b : List Elem) (e : Elem) (st : St F)
+    (ds : List (NodeData F)) (st' : St F) (h : parseElems pr (a ++ e :: b) st = .ok (ds, st')) :
+    ∃ da s1 de s2 db, parseElems pr a st = .ok (da, s1) ∧ parseElem pr e s1 = .ok (de, s2) ∧
+      parseElems pr b s2 = .ok (db, st') ∧ ds = da ++ (de ++ db) := by
+  induction a generalizing st ds with
+  | nil =>
+    simp only [List.nil_append, parseElems] at h
+    cases hp : parseElem pr e st with
+    | ok r =>
+      rw [hp] at h
+      simp only [Res.bind_ok'] at h
+      cases hr : parseElems pr b r.2 with
+      | ok r2 =>
+        rw [hr] at h
+        simp only [Res.bind_ok', Res.ok.injEq, Prod.mk.injEq] at h
+        obtain ⟨rfl, rfl⟩ := h
+        exact ⟨[], st, r.1, r.2, r2.1, rfl, by rw [hp], by rw [hr], by simp⟩
+      | err x => rw [hr] at h; cases h
+      | panic => rw [hr] at h; cases h
+    | err x => rw [hp] at h; cases h
+    | panic => rw [hp] at h; cases h
+  | cons x xs ih =>
+    simp only [List.cons_append, parseElems] at h
+    cases hp : parseElem pr x st with
+    | ok r =>
+      rw [hp] at h
+      simp only [Res.bind_ok'] at h
+      cases hr : parseElems pr (xs ++ e :: b) r.2 with
+      | ok r2 =>
+        rw [hr] at h
+        simp only [Res.bind_ok', Res.ok.injEq, Prod.mk.injEq] at h
+        obtain ⟨rfl, rfl⟩ := h
+        obtain ⟨da, s1, de, s2, db, h1, h2, h3, h4⟩ := ih r.2 r2.1 (by rw [hr])
+        refine ⟨r.1 ++ da, s1, de, s2, db, ?_, h2, h3, by rw [h4, List.append_assoc]⟩
+        simp only [parseElems, hp, Res.bind_ok', h1]
+      | err y => rw [hr] at h; cases h
+      | panic => rw [hr] at h; cases h
+    | err y => rw [hp] at h; cases h
+    | panic => rw [hp] at h; cases h
+
+/-- a declaration INSIDE a Group (anywhere among its members, the Group anywhere in the
+document): at the end of the document `id_by_name` of its declared name gives its id and
+`node_opt` of that id gives the parsed node -/
+theorem group_member_found (pr : Profile) (hdev : pr.debugAsserts = true) (a b a' b' : List Elem)
+    (attrs : List (Str × Str)) (e : Elem) (name : Str) (d : St F → NodeData F) (s2 : St F → St F)
+    (hp : ∀ st, parseElem pr e st = .ok ([d st], s2 st))
+    (hid : ∀ st, (d st).attr.id = (internS name st).1)
+    (hg : ∀ st, Grows (internS name st).2 (s2 st))
+    (hel : AllElems (a' ++ e :: b'))
+    (hsib : ∀ x, x ∈ a ∨ x ∈ b → Good (F := F) pr x)
+    (hmem : ∀ x ∈ a' ++ e :: b', Good (F := F) pr x) (st stF : St F)
+    (h : topLevel pr (a ++ .node cs!"Group" attrs (a' ++ e :: b') :: b) st = .ok stF) :
+    ∃ s1, findName name stF.names = some (d s1).attr.id ∧ Stored stF (d s1).attr.id (d s1) := by
+  have hgood : ∀ x ∈ a ++ .node cs!"Group" attrs (a' ++ e :: b') :: b, Good (F := F) pr x := by
+    intro x hx
+    rcases List.mem_append.mp hx with hx | hx
+    · exact hsib x (Or.inl hx)
+    · rcases List.mem_cons.mp hx with rfl | hx
+      · exact good_Group pr attrs _ hel hmem
+      · exact hsib x (Or.inr hx)
+  obtain ⟨st1, ds, st2, _, h2, _, h4, h5⟩ :=
+    document_retrievable pr hdev a b _ hgood st stF h
+  rw [group_flat_members pr attrs _ hel st1] at h2
+  obtain ⟨da, s1, de, sE, db, _, g2, g3, g4⟩ := parseElems_split pr a' b' e st1 ds st2 h2
+  rw [hp s1] at g2
+  simp only [Res.ok.injEq, Prod.mk.injEq] at g2
+  obtain ⟨rfl, rfl⟩ := g2
+  have k3 := parseElems_keeps pr b' (fun x hx => hmem x (by simp [hx])) _ _ _ g3
+  refine ⟨s1, ?_, h5 (d s1) (by rw [g4]; simp)⟩
+  rw [hid s1]
+  exact idByName_of_le name s1 stF (St.le_trans (hg s1).1 (St.le_trans k3.1 h4.1))
+
+/-- document-level form for `MaskedIntReg` (the one-step `retrievable_MaskedIntReg` above is the
+special case of a store right after the node's own parse) -/
+theorem retrievable_MaskedIntReg_document (pr : Profile) (hdev : pr.debugAsserts = true)
+    (a b : List Elem) (m : MaskedM) (hgood : ∀ x ∈ a ++ m.render :: b, Good (F := F) pr x)
+    (st stF : St F) (h : topLevel pr (a ++ m.render :: b) st = .ok stF) :
+    ∃ st1, topLevel pr a st = .ok st1 ∧
+      findName m.attr.name stF.names = some (specMasked m st1).1.attr.id ∧
+      Stored stF (specMasked m st1).1.attr.id (.maskedIntReg (specMasked m st1).1) :=
+  declared_found pr hdev a b _ m.attr.name (fun st => .maskedIntReg (specMasked m st).1) _
+    (parse_render_MaskedIntReg pr m) (fun _ => rfl) (grows_specMasked m) hgood st stF h
+
+theorem retrievable_Node_in_Group (pr : Profile) (hdev : pr.debugAsserts = true) (a b a' b' : List Elem)
+    (attrs : List (Str × Str)) (m : NodeM) (hel : AllElems (a' ++ m.render :: b'))
+    (hsib : ∀ x, x ∈ a ∨ x ∈ b → Good (F := F) pr x)
+    (hmem : ∀ x ∈ a' ++ m.render :: b', Good (F := F) pr x) (st stF : St F)
+    (h : topLevel pr (a ++ .node cs!"Group" attrs (a' ++ m.render :: b') :: b) st = .ok stF) :
+    ∃ s1 : St F, findName m.attr.name stF.names = some (specNode m s1).1.attr.id ∧
+      Stored stF (specNode m s1).1.attr.id (.node (specNode m s1).1) :=
+  group_member_found pr hdev a b a' b' attrs _ m.attr.name (fun st => .node (specNode m st).1) _
+    (parse_render_Node pr m) (fun _ => rfl) (grows_specNode m) hel hsib hmem st stF h
+
+theorem retrievable_Category_in_Group (pr : Profile) (hdev : pr.debugAsserts = true) (a b a' b' : List Elem)
+    (attrs : List (Str × Str)) (m : CategoryM) (hel : AllElems (a' ++ m.render :: b'))
+    (hsib : ∀ x, x ∈ a ∨ x ∈ b → Good (F := F) pr x)
+    (hmem : ∀ x ∈ a' ++ m.render :: b', Good (F := F) pr x) (st stF : St F)
+    (h : topLevel pr (a ++ .node cs!"Group" attrs (a' ++ m.render :: b') :: b) st = .ok stF) :
+    ∃ s1 : St F, findName m.attr.name stF.names = some (specCategory m s1).1.attr.id ∧
+      Stored stF (specCategory m s1).1.attr.id (.category (specCategory m s1).1) :=
+  group_member_found pr hdev a b a' b' attrs _ m.attr.name (fun st => .category (specCategory m st).1) _
+    (parse_render_Category pr m) (fun _ => rfl) (grows_specCategory m) hel hsib hmem st stF h
+
+theorem retrievable_Integer_in_Group (pr : Profile) (hdev : pr.debugAsserts = true) (a b a' b' : List Elem)
+    (attrs : List (Str × Str)) (m : IntegerM) (hel : AllElems (a' ++ m.render :: b'))
+    (hsib : ∀ x, x ∈ a ∨ x ∈ b → Good (F := F) pr x)
+    (hmem : ∀ x ∈ a' ++ m.render :: b', Good (F := F) pr x) (st stF : St F)
+    (h : topLevel pr (a ++ .node cs!"Group" attrs (a' ++ m.render :: b') :: b) st = .ok stF) :
+    ∃ s1 : St F, findName m.attr.name stF.names = some (specInteger m s1).1.attr.id ∧
+      Stored stF (specInteger m s1).1.attr.id (.integer (specInteger m s1).1) :=
+  group_member_found pr hdev a b a' b' attrs _ m.attr.name (fun st => .integer (specInteger m st).1) _
+    (parse_render_Integer pr m) (fun _ => rfl) (grows_specInteger m) hel hsib hmem st stF h
+
+theorem retrievable_IntReg_in_Group (pr : Profile) (hdev : pr.debugAsserts = true) (a b a' b' : List Elem)
+    (attrs : List (Str × Str)) (m : IntRegM) (hel : AllElems (a' ++ m.render :: b'))
+    (hsib : ∀ x, x ∈ a ∨ x ∈ b → Good (F := F) pr x)
+    (hmem : ∀ x ∈ a' ++ m.render :: b', Good (F := F) pr x) (st stF : St F)
+    (h : topLevel pr (a ++ .node cs!"Group" attrs (a' ++ m.render :: b') :: b) st = .ok stF) :
+    ∃ s1 : St F, findName m.attr.name stF.names = some (specIntReg m s1).1.attr.id ∧
+      Stored stF (specIntReg m s1).1.attr.id (.intReg (specIntReg m s1).1) :=
+  group_member_found pr hdev a b a' b' attrs _ m.attr.name (fun st => .intReg (specIntReg m st).1) _
+    (parse_render_IntReg pr m) (fun _ => rfl) (grows_specIntReg m) hel hsib hmem st stF h
+
+theorem retrievable_MaskedIntReg_in_Group (pr : Profile) (hdev : pr.debugAsserts = true) (a b a' b' : List Elem)
+    (attrs : List (Str × Str)) (m : MaskedM) (hel : AllElems (a' ++ m.render :: b'))
+    (hsib : ∀ x, x ∈ a ∨ x ∈ b → Good (F := F) pr x)
+    (hmem : ∀ x ∈ a' ++ m.render :: b', Good (F := F) pr x) (st stF : St F)
+    (h : topLevel pr (a ++ .node cs!"Group" attrs (a' ++ m.render :: b') :: b) st = .ok stF) :
+    ∃ s1 : St F, findName m.attr.name stF.names = some (specMasked m s1).1.attr.id ∧
+      Stored stF (specMasked m s1).1.attr.id (.maskedIntReg (specMasked m s1).1) :=
+  group_member_found pr hdev a b a' b' attrs _ m.attr.name (fun st => .maskedIntReg (specMasked m st).1) _
+    (parse_render_MaskedIntReg pr m) (fun _ => rfl) (grows_specMasked m) hel hsib hmem st stF h
+
+theorem retrievable_Boolean_in_Group (pr : Profile) (hdev : pr.debugAsserts = true) (a b a' b' : List Elem)
+    (attrs : List (Str × Str)) (m : BooleanM) (hel : AllElems (a' ++ m.render :: b'))
+    (hsib : ∀ x, x ∈ a ∨ x ∈ b → Good (F := F) pr x)
+    (hmem : ∀ x ∈ a' ++ m.render :: b', Good (F := F) pr x) (st stF : St F)
+    (h : topLevel pr (a ++ .node cs!"Group" attrs (a' ++ m.render :: b') :: b) st = .ok stF) :
+    ∃ s1 : St F, findName m.attr.name stF.names = some (specBoolean m s1).1.attr.id ∧
+      Stored stF (specBoolean m s1).1.attr.id (.boolean (specBoolean m s1).1) :=
+  group_member_found pr hdev a b a' b' attrs _ m.attr.name (fun st => .boolean (specBoolean m st).1) _
+    (parse_render_Boolean pr m) (fun st => by simp only [NodeData.attr, specBoolean]; split <;> rfl) (grows_specBoolean m) hel hsib hmem st stF h
+
+theorem retrievable_Command_in_Group (pr : Profile) (hdev : pr.debugAsserts = true) (a b a' b' : List Elem)
+    (attrs : List (Str × Str)) (m : CommandM) (hel : AllElems (a' ++ m.render :: b'))
+    (hsib : ∀ x, x ∈ a ∨ x ∈ b → Good (F := F) pr x)
+    (hmem : ∀ x ∈ a' ++ m.render :: b', Good (F := F) pr x) (st stF : St F)
+    (h : topLevel pr (a ++ .node cs!"Group" attrs (a' ++ m.render :: b') :: b) st = .ok stF) :
+    ∃ s1 : St F, findName m.attr.name stF.names = some (specCommand m s1).1.attr.id ∧
+      Stored stF (specCommand m s1).1.attr.id (.command (specCommand m s1).1) :=
+  group_member_found pr hdev a b a' b' attrs _ m.attr.name (fun st => .command (specCommand m st).1) _
+    (parse_render_Command pr m) (fun _ => rfl) (grows_specCommand m) hel hsib hmem st stF h
+
+theorem retrievable_Float_in_Group (pr : Profile) (hdev : pr.debugAsserts = true) (a b a' b' : List Elem)
+    (attrs : List (Str × Str)) (m : FloatM F) (hel : AllElems (a' ++ m.render :: b'))
+    (hsib : ∀ x, x ∈ a ∨ x ∈ b → Good (F := F) pr x)
+    (hmem : ∀ x ∈ a' ++ m.render :: b', Good (F := F) pr x) (st stF : St F)
+    (h : topLevel pr (a ++ .node cs!"Group" attrs (a' ++ m.render :: b') :: b) st = .ok stF) :
+    ∃ s1 : St F, findName m.attr.name stF.names = some (specFloat m s1).1.attr.id ∧
+      Stored stF (specFloat m s1).1.attr.id (.float (specFloat m s1).1) :=
+  group_member_found pr hdev a b a' b' attrs _ m.attr.name (fun st => .float (specFloat m st).1) _
+    (parse_render_Float pr m) (fun _ => rfl) (grows_specFloat m) hel hsib hmem st stF h
+
+theorem retrievable_FloatReg_in_Group (pr : Profile) (hdev : pr.debugAsserts = true) (a b a' b' : List Elem)
+    (attrs : List (Str × Str)) (m : FloatRegM) (hel : AllElems (a' ++ m.render :: b'))
+    (hsib : ∀ x, x ∈ a ∨ x ∈ b → Good (F := F) pr x)
+    (hmem : ∀ x ∈ a' ++ m.render :: b', Good (F := F) pr x) (st stF : St F)
+    (h : topLevel pr (a ++ .node cs!"Group" attrs (a' ++ m.render :: b') :: b) st = .ok stF) :
+    ∃ s1 : St F, findName m.attr.name stF.names = some (specFloatReg m s1).1.attr.id ∧
+      Stored stF (specFloatReg m s1).1.attr.id (.floatReg (specFloatReg m s1).1) :=
+  group_member_found pr hdev a b a' b' attrs _ m.attr.name (fun st => .floatReg (specFloatReg m st).1) _
+    (parse_render_FloatReg pr m) (fun _ => rfl) (grows_specFloatReg m) hel hsib hmem st stF h
+
+theorem retrievable_String_in_Group (pr : Profile) (hdev : pr.debugAsserts = true) (a b a' b' : List Elem)
+    (attrs : List (Str × Str)) (m : StringM) (hel : AllElems (a' ++ m.render :: b'))
+    (hsib : ∀ x, x ∈ a ∨ x ∈ b → Good (F := F) pr x)
+    (hmem : ∀ x ∈ a' ++ m.render :: b', Good (F := F) pr x) (st stF : St F)
+    (h : topLevel pr (a ++ .node cs!"Group" attrs (a' ++ m.render :: b') :: b) st = .ok stF) :
+    ∃ s1 : St F, findName m.attr.name stF.names = some (specString m s1).1.attr.id ∧
+      Stored stF (specString m s1).1.attr.id (.string (specString m s1).1) :=
+  group_member_found pr hdev a b a' b' attrs _ m.attr.name (fun st => .string (specString m st).1) _
+    (parse_render_String pr m) (fun _ => rfl) (grows_specString m) hel hsib hmem st stF h
+
+theorem retrievable_StringReg_in_Group (pr : Profile) (hdev : pr.debugAsserts = true) (a b a' b' : List Elem)
+    (attrs : List (Str × Str)) (m : PlainRegM) (hel : AllElems (a' ++ (m.render cs!"StringReg") :: b'))
+    (hsib : ∀ x, x ∈ a ∨ x ∈ b → Good (F := F) pr x)
+    (hmem : ∀ x ∈ a' ++ (m.render cs!"StringReg") :: b', Good (F := F) pr x) (st stF : St F)
+    (h : topLevel pr (a ++ .node cs!"Group" attrs (a' ++ (m.render cs!"StringReg") :: b') :: b) st = .ok stF) :
+    ∃ s1 : St F, findName m.attr.name stF.names = some (specPlainReg m s1).1.attr.id ∧
+      Stored stF (specPlainReg m s1).1.attr.id (.stringReg (specPlainReg m s1).1) :=
+  group_member_found pr hdev a b a' b' attrs _ m.attr.name (fun st => .stringReg (specPlainReg m st).1) _
+    (parse_render_StringReg pr m) (fun _ => rfl) (grows_specPlainReg m) hel hsib hmem st stF h
+
+theorem retrievable_Register_in_Group (pr : Profile) (hdev : pr.debugAsserts = true) (a b a' b' : List Elem)
+    (attrs : List (Str × Str)) (m : PlainRegM) (hel : AllElems (a' ++ (m.render cs!"Register") :: b'))
+    (hsib : ∀ x, x ∈ a ∨ x ∈ b → Good (F := F) pr x)
+    (hmem : ∀ x ∈ a' ++ (m.render cs!"Register") :: b', Good (F := F) pr x) (st stF : St F)
+    (h : topLevel pr (a ++ .node cs!"Group" attrs (a' ++ (m.render cs!"Register") :: b') :: b) st = .ok stF) :
+    ∃ s1 : St F, findName m.attr.name stF.names = some (specPlainReg m s1).1.attr.id ∧
+      Stored stF (specPlainReg m s1).1.attr.id (.register (specPlainReg m s1).1) :=
+  group_member_found pr hdev a b a' b' attrs _ m.attr.name (fun st => .register (specPlainReg m st).1) _
+    (parse_render_Register pr m) (fun _ => rfl) (grows_specPlainReg m) hel hsib hmem st stF h
+
+theorem retrievable_Port_in_Group (pr : Profile) (hdev : pr.debugAsserts = true) (a b a' b' : List Elem)
+    (attrs : List (Str × Str)) (m : PortM) (hel : AllElems (a' ++ m.render :: b'))
+    (hsib : ∀ x, x ∈ a ∨ x ∈ b → Good (F := F) pr x)
+    (hmem : ∀ x ∈ a' ++ m.render :: b', Good (F := F) pr x) (st stF : St F)
+    (h : topLevel pr (a ++ .node cs!"Group" attrs (a' ++ m.render :: b') :: b) st = .ok stF) :
+    ∃ s1 : St F, findName m.attr.name stF.names = some (specPort m s1).1.attr.id ∧
+      Stored stF (specPort m s1).1.attr.id (.port (specPort m s1).1) :=
+  group_member_found pr hdev a b a' b' attrs _ m.attr.name (fun st => .port (specPort m st).1) _
+    (parse_render_Port pr m) (fun _ => rfl) (grows_specPort m) hel hsib hmem st stF h
+
+theorem retrievable_Converter_in_Group (pr : Profile) (hdev : pr.debugAsserts = true) (a b a' b' : List Elem)
+    (attrs : List (Str × Str)) (m : ConverterM F) (hel : AllElems (a' ++ m.render :: b'))
+    (hsib : ∀ x, x ∈ a ∨ x ∈ b → Good (F := F) pr x)
+    (hmem : ∀ x ∈ a' ++ m.render :: b', Good (F := F) pr x) (st stF : St F)
+    (h : topLevel pr (a ++ .node cs!"Group" attrs (a' ++ m.render :: b') :: b) st = .ok stF) :
+    ∃ s1 : St F, findName m.attr.name stF.names = some (specConverter m s1).1.attr.id ∧
+      Stored stF (specConverter m s1).1.attr.id (.converter (specConverter m s1).1) :=
+  group_member_found pr hdev a b a' b' attrs _ m.attr.name (fun st => .converter (specConverter m st).1) _
+    (parse_render_Converter pr m) (fun _ => rfl) (grows_specConverter m) hel hsib hmem st stF h
+
+theorem retrievable_IntConverter_in_Group (pr : Profile) (hdev : pr.debugAsserts = true) (a b a' b' : List Elem)
+    (attrs : List (Str × Str)) (m : IntConverterM F) (hel : AllElems (a' ++ m.render :: b'))
+    (hsib : ∀ x, x ∈ a ∨ x ∈ b → Good (F := F) pr x)
+    (hmem : ∀ x ∈ a' ++ m.render :: b', Good (F := F) pr x) (st stF : St F)
+    (h : topLevel pr (a ++ .node cs!"Group" attrs (a' ++ m.render :: b') :: b) st = .ok stF) :
+    ∃ s1 : St F, findName m.attr.name stF.names = some (specIntConverter m s1).1.attr.id ∧
+      Stored stF (specIntConverter m s1).1.attr.id (.intConverter (specIntConverter m s1).1) :=
+  group_member_found pr hdev a b a' b' attrs _ m.attr.name (fun st => .intConverter (specIntConverter m st).1) _
+    (parse_render_IntConverter pr m) (fun _ => rfl) (grows_specIntConverter m) hel hsib hmem st stF h
+
+theorem retrievable_SwissKnife_in_Group (pr : Profile) (hdev : pr.debugAsserts = true) (a b a' b' : List Elem)
+    (attrs : List (Str × Str)) (m : SwissKnifeM F) (hel : AllElems (a' ++ m.render :: b'))
+    (hsib : ∀ x, x ∈ a ∨ x ∈ b → Good (F := F) pr x)
+    (hmem : ∀ x ∈ a' ++ m.render :: b', Good (F := F) pr x) (st stF : St F)
+    (h : topLevel pr (a ++ .node cs!"Group" attrs (a' ++ m.render :: b') :: b) st = .ok stF) :
+    ∃ s1 : St F, findName m.attr.name stF.names = some (specSwissKnife m s1).1.attr.id ∧
+      Stored stF (specSwissKnife m s1).1.attr.id (.swissKnife (specSwissKnife m s1).1) :=
+  group_member_found pr hdev a b a' b' attrs _ m.attr.name (fun st => .swissKnife (specSwissKnife m st).1) _
+    (parse_render_SwissKnife pr m) (fun _ => rfl) (grows_specSwissKnife m) hel hsib hmem st stF h
+
+theorem retrievable_IntSwissKnife_in_Group (pr : Profile) (hdev : pr.debugAsserts = true) (a b a' b' : List Elem)
+    (attrs : List (Str × Str)) (m : IntSwissKnifeM F) (hel : AllElems (a' ++ m.render :: b'))
+    (hsib : ∀ x, x ∈ a ∨ x ∈ b → Good (F := F) pr x)
+    (hmem : ∀ x ∈ a' ++ m.render :: b', Good (F := F) pr x) (st stF : St F)
+    (h : topLevel pr (a ++ .node cs!"Group" attrs (a' ++ m.render :: b') :: b) st = .ok stF) :
+    ∃ s1 : St F, findName m.attr.name stF.names = some (specIntSwissKnife m s1).1.attr.id ∧
+      Stored stF (specIntSwissKnife m s1).1.attr.id (.intSwissKnife (specIntSwissKnife m s1).1) :=
+  group_member_found pr hdev a b a' b' attrs _ m.attr.name (fun st => .intSwissKnife (specIntSwissKnife m st).1) _
+    (parse_render_IntSwissKnife pr m) (fun _ => rfl) (grows_specIntSwissKnife m) hel hsib hmem st stF h
+
 /-! ## every declared immediate owns its value-store cell -/
 
 /-- `ValueStoreBuilder::store` as the parser uses it: the value store is a list of independent
@@ -1026,6 +1319,21 @@ theorem literals_plus_dec (n : Nat) (h : (n : Int) ≤ I64_MAX) :
 
 theorem literals_uint_plus_dec (n : Nat) (h : n ≤ U64_MAX) :
     convertToUint ('+' :: natDigits 10 false n) = .ok n := convertToUint_plus n h
+
+/-- decimal digits with leading zeros, unsigned / `+` / `-`: `010` is ten (never octal), `-007`
+is minus seven — the lexical space `[+-]?[0-9]+` -/
+theorem literals_dec_leading_zeros (k n : Nat) (h : (n : Int) ≤ I64_MAX) :
+    convertToInt (List.replicate k '0' ++ natDigits 10 false n) = .ok (n : Int) ∧
+    convertToInt ('+' :: (List.replicate k '0' ++ natDigits 10 false n)) = .ok (n : Int) :=
+  ⟨convertToInt_zeros_dec k n h, convertToInt_plus_zeros_dec k n h⟩
+
+theorem literals_neg_dec_leading_zeros (k n : Nat) (h : I64_MIN ≤ -(n : Int)) :
+    convertToInt ('-' :: (List.replicate k '0' ++ natDigits 10 false n)) = .ok (-(n : Int)) :=
+  convertToInt_minus_zeros_dec k n h
+
+theorem literals_uint_dec_leading_zeros (k n : Nat) (h : n ≤ U64_MAX) :
+    convertToUint (List.replicate k '0' ++ natDigits 10 false n) = .ok n :=
+  convertToUint_zeros_dec k n h
 
 /-- unsigned fields (`PollingTime`, `Bit`, `LSB`, `MSB`, version numbers): decimal form -/
 theorem literals_uint_dec (n : Nat) (h : n ≤ U64_MAX) :
@@ -1165,6 +1473,14 @@ example : ∀ x ∈ [exInteger.render, exStruct.render], Good (F := Unit) Profil
   rcases hx with rfl | rfl
   · exact good_Integer _ _
   · exact good_StructReg _ _
+
+/-- … and the success hypothesis `topLevel … = .ok stF` of `retrievable_*` is satisfiable: this
+two-declaration document (an Integer, a StructReg with two entries) parses and stores its
+three nodes with debug assertions on -/
+example : (topLevel (F := Unit) Profile.dev [exInteger.render, exStruct.render] St.empty).isOk
+    = true := by
+  simp only [topLevel, parse_render_Integer, parse_render_StructReg, Res.bind_ok']
+  rfl
 
 /-- `group_flat`: members are element nodes -/
 example : AllElems [exInteger.render, exStruct.render] := by simp [AllElems, IntegerM.render, StructM.render]
